@@ -16,14 +16,27 @@ import (
 	"fmt"
 	"time"
 
+	"github.com/ucan-wg/go-ucan/token/delegation"
+	"github.com/ucan-wg/go-ucan/token/invocation"
 	"pgregory.net/rapid"
 
 	"verif/harness/h"
 )
 
+// option values shared between the tokens of one clock history (nil: every token gets fresh ones)
+var (
+	sharedInvExp map[int64]invocation.Option
+	sharedDlgExp map[int64]delegation.Option
+	sharedDlgNbf map[int64]delegation.Option
+)
+
 type ClockCase struct {
 	Chains []Case `json:"chains"`
 	WaitMs int    `json:"wait_ms"`
+	// ShareOpts: the caller keeps ONE option value per relative bound ("expires in 1.5 s") and uses it for every
+	// token of the history that has this bound - also for tokens it builds later, after the wait. A token's
+	// bounds are fixed when it is built; later uses of the option value do not move them.
+	ShareOpts bool `json:"share_opts,omitempty"`
 }
 
 const clockMargin = 60 * time.Millisecond
@@ -34,11 +47,33 @@ type bound struct {
 }
 
 func boundsOf(b *Built) []bound {
-	out := []bound{{nil, b.Inv.Expiration(), "invocation"}}
+	cp := func(t *time.Time) *time.Time {
+		if t == nil {
+			return nil
+		}
+		x := *t
+		return &x
+	}
+	out := []bound{{nil, cp(b.Inv.Expiration()), "invocation"}}
 	for i, d := range b.Dlgs {
-		out = append(out, bound{d.NotBefore(), d.Expiration(), fmt.Sprintf("delegation %d", i)})
+		out = append(out, bound{cp(d.NotBefore()), cp(d.Expiration()), fmt.Sprintf("delegation %d", i)})
 	}
 	return out
+}
+
+func sameBounds(a, b []bound) (bool, string) {
+	eq := func(x, y *time.Time) bool {
+		if x == nil || y == nil {
+			return x == y
+		}
+		return x.Equal(*y)
+	}
+	for i := range a {
+		if i >= len(b) || !eq(a[i].nbf, b[i].nbf) || !eq(a[i].exp, b[i].exp) {
+			return false, a[i].what
+		}
+	}
+	return true, ""
 }
 
 // verdict: +1 every token valid with margin during [t0,t1]; -1 some token invalid with margin; 0 too close.
@@ -67,13 +102,28 @@ func verdict(bs []bound, t0, t1 time.Time) (int, string) {
 
 func RunClock(c *h.Ctx, cc ClockCase, owner string) {
 	type live struct {
-		b  *Built
-		cs Case
-		ok bool // all non-time rules hold
+		b      *Built
+		cs     Case
+		ok     bool    // all non-time rules hold
+		bounds []bound // as read back right after construction
 	}
 	var ls []live
+	// every second chain of the history uses the shared option values, the others fresh ones
+	regI, regE, regN := map[int64]invocation.Option{}, map[int64]delegation.Option{}, map[int64]delegation.Option{}
+	share := func(i int) {
+		if cc.ShareOpts && i%2 == 1 {
+			sharedInvExp, sharedDlgExp, sharedDlgNbf = regI, regE, regN
+		} else {
+			sharedInvExp, sharedDlgExp, sharedDlgNbf = nil, nil, nil
+		}
+	}
+	defer share(0)
+	if cc.ShareOpts {
+		c.P.Class("clock:shared-option-values")
+	}
 	start := time.Now()
-	for _, cs := range cc.Chains {
+	for i, cs := range cc.Chains {
+		share(i)
 		b, err := Build(cs)
 		if err != nil {
 			c.P.Class("clock:build-error")
@@ -81,7 +131,7 @@ func RunClock(c *h.Ctx, cc ClockCase, owner string) {
 			continue
 		}
 		r := Eval(cs)
-		ls = append(ls, live{b, cs, r.All(1, 8) && !r.PolicyUnspec})
+		ls = append(ls, live{b, cs, r.All(1, 8) && !r.PolicyUnspec, boundsOf(b)})
 	}
 	judged := 0
 	phase := func(name string) {
@@ -98,7 +148,11 @@ func RunClock(c *h.Ctx, cc ClockCase, owner string) {
 					d = DecideIdentityHook(l.b)
 				}
 				t1 := time.Now()
-				v, why := verdict(boundsOf(l.b), t0, t1)
+				if same, what := sameBounds(l.bounds, boundsOf(l.b)); !same {
+					c.Fail(owner+"/clock/bound-moved/"+name, "chain %d (%v): the time bounds of the %s are no longer what they were when the token was built (then: %s | now: %s): nothing but construction sets them", i, l.cs.Dev, what, showBoundsOf(l.bounds, t0), showBounds(l.b, t0))
+					return
+				}
+				v, why := verdict(l.bounds, t0, t1)
 				switch {
 				case v == 0:
 					c.P.Class("clock:" + name + ":too-close-to-judge")
@@ -131,6 +185,14 @@ func RunClock(c *h.Ctx, cc ClockCase, owner string) {
 	if rest := time.Duration(cc.WaitMs)*time.Millisecond - time.Since(start); rest > 0 {
 		time.Sleep(rest)
 	}
+	if cc.ShareOpts {
+		// the caller goes on using its option values: every chain is built once more (and thrown away)
+		for i, cs := range cc.Chains {
+			share(i)
+			_, _ = Build(cs)
+		}
+		share(0)
+	}
 	phase("after-wait")
 	if judged > 0 {
 		var devs []string
@@ -141,9 +203,11 @@ func RunClock(c *h.Ctx, cc ClockCase, owner string) {
 	}
 }
 
-func showBounds(b *Built, at time.Time) string {
+func showBounds(b *Built, at time.Time) string { return showBoundsOf(boundsOf(b), at) }
+
+func showBoundsOf(bs []bound, at time.Time) string {
 	s := ""
-	for _, x := range boundsOf(b) {
+	for _, x := range bs {
 		s += x.what + ":"
 		if x.nbf != nil {
 			s += fmt.Sprintf(" nbf%+v", x.nbf.Sub(at).Round(time.Millisecond))
@@ -160,7 +224,7 @@ func ms(v int64) *int64 { return &v }
 
 // DrawClock draws a batch of conforming chains with near-now bounds.
 func DrawClock(t *rapid.T) ClockCase {
-	cc := ClockCase{WaitMs: rapid.SampledFrom([]int{2300, 3300}).Draw(t, "wait")}
+	cc := ClockCase{WaitMs: rapid.SampledFrom([]int{2300, 3300}).Draw(t, "wait"), ShareOpts: true}
 	n := rapid.IntRange(12, 30).Draw(t, "nchains")
 	for i := 0; i < n; i++ {
 		cs := DrawConforming(t, GenOpt{MaxLen: 4, Commands: true, Irrelevant: true})
